@@ -3,6 +3,7 @@ import getpass
 import sys, os, pickle
 import tempfile
 import types
+from io import BytesIO
 import re
 from typing import (
     TypeVar, Type, List, Dict, Iterator, Callable, Union, Optional, Sequence,
@@ -374,11 +375,16 @@ class Lark(Serialize, Generic[_Return_T]):
                         for name in (set(options) - _LOAD_ALLOWED_OPTIONS):
                             del options[name]
                         file_sha256 = f.readline().rstrip(b'\n')
-                        cached_used_files = pickle.load(f)
-                        if file_sha256 == cache_sha256.encode('utf8') and verify_used_files(cached_used_files):
-                            cached_parser_data = pickle.load(f)
-                            self._load(cached_parser_data, **options)
-                            return
+                        # The second line is a checksum of the rest of the file, to detect damaged files
+                        body_sha256 = f.readline().rstrip(b'\n')
+                        body = f.read()
+                        if file_sha256 == cache_sha256.encode('utf8') and body_sha256 == sha256_digest(body).encode('utf8'):
+                            body_f = BytesIO(body)
+                            cached_used_files = pickle.load(body_f)
+                            if verify_used_files(cached_used_files):
+                                cached_parser_data = pickle.load(body_f)
+                                self._load(cached_parser_data, **options)
+                                return
                 except FileNotFoundError:
                     # The cache file doesn't exist; parse and compose the grammar as normal
                     pass
@@ -483,11 +489,15 @@ class Lark(Serialize, Generic[_Return_T]):
         if cache_fn:
             logger.debug('Saving grammar to cache: %s', cache_fn)
             try:
+                body_f = BytesIO()
+                pickle.dump(used_files, body_f)
+                self.save(body_f, _LOAD_ALLOWED_OPTIONS)
+                body = body_f.getvalue()
                 with FS.open(cache_fn, 'wb') as f:
                     assert cache_sha256 is not None
                     f.write(cache_sha256.encode('utf8') + b'\n')
-                    pickle.dump(used_files, f)
-                    self.save(f, _LOAD_ALLOWED_OPTIONS)
+                    f.write(sha256_digest(body).encode('utf8') + b'\n')
+                    f.write(body)
             except IOError as e:
                 logger.exception("Failed to save Lark to cache: %r.", cache_fn, e)
 
